@@ -856,7 +856,8 @@ def gen_circuit(rng, cls, sym, dims, boundary, mode, depth):
             if not paths:
                 continue
             g = {"g": "mpo", "terms": mpo_terms(rng, cls, sym, k), "form": rng.choice(["mpo", "mpo", "list"]),
-                 "sites": [list(s) for s in rng.choice(paths)]}
+                 "sites": [list(s) for s in rng.choice(paths)],
+                 "present": mpo_presentation(rng, cls, sym, k, prog["complex"])}
         gates.append(g)
     prog["gates"] = gates
     return prog
@@ -900,6 +901,95 @@ def desc_to_gatecase(cls, sym, g):
     raise ValueError(k)
 
 
+def mpo_presentation(rng, cls, sym, k, cplx_ok):
+    """random history of the MPO object that is handed to Gate.G: the same kind of operator can reach apply_gate_ as a
+    rescaled MPO (z*O, O*z, O/z, -O: modulus kept in O.factor, phase in the first tensor), in a canonical form or
+    compressed (norm dropped or accumulated in O.factor), or as a sum / product of MPOs (block / fused virtual legs)."""
+    steps = []
+    n = rng.choice([0, 1, 1, 2, 2, 3])
+    grown = False
+    for _ in range(n):
+        r = rng.random()
+        if r < 0.35:
+            how = rng.choice(["rmul", "rmul", "mul", "div", "neg"])
+            mode = rng.choice(["real", "real", "complex", "imag"]) if cplx_ok else "real"
+            z = [0.0, 0.0]
+            while abs(complex(*z)) < 0.25:
+                z = rand_param(rng, mode, 3.0)
+            steps.append({"op": "scale", "how": how, "z": z})
+        elif r < 0.55:
+            steps.append({"op": "canon", "to": rng.choice(["first", "last"]), "normalize": rng.random() < 0.35})
+        elif r < 0.8:
+            steps.append({"op": "trunc", "to": rng.choice(["first", "last"]), "normalize": rng.random() < 0.35})
+        elif not grown:
+            grown = True
+            terms = mpo_terms(rng, cls, sym, k)[:2]
+            if rng.random() < 0.5:
+                steps.append({"op": "matmul", "side": rng.choice(["left", "right"]), "terms": terms[:1]})
+            else:
+                how = rng.choice(["add", "plus", "minus"])
+                amps = [rand_param(rng, rng.choice(["real", "complex"]) if cplx_ok else "real", 2.0) for _ in range(2)] if how == "add" else None
+                steps.append({"op": "add", "how": how, "amps": amps, "terms": terms})
+    return steps
+
+
+def mpo_from_terms(ops, alg, cls, k, terms):
+    """identity + sum of terms on a k-chain: (real MPO from generate_mpo, independent NumPy JW matrix)."""
+    import yastn.tn.mps as mps
+    words = [(complex(*a), [tuple(w) for w in word]) for a, word in terms]
+    M = np.eye(alg["d"] ** k, dtype=complex) + chain_op(alg, k, words)
+    I = ops.I()
+    hterms = [mps.Hterm(1, [0], [I])]
+    for a, word in terms:
+        hterms.append(mps.Hterm(cplx(a), [p for _, p in word], [yop(ops, cls, n) for n, _ in word]))
+    return mps.generate_mpo(mps.product_mpo(I, k), hterms), M
+
+
+def present_mpo(ops, alg, cls, k, O, M, steps):
+    """applies the presentation history to the real MPO (public mps API) and, independently, to the dense matrix.
+    Returns (None, None) if a step is not applicable (operator of vanishing norm)."""
+    import yastn.tn.mps as mps
+    for st in steps:
+        op = st["op"]
+        if op == "scale":
+            z, zc = cplx(st["z"]), complex(*st["z"])
+            if st["how"] == "rmul":
+                O, M = z * O, zc * M
+            elif st["how"] == "mul":
+                O, M = O * z, zc * M
+            elif st["how"] == "div":
+                O, M = O / z, M / zc
+            else:
+                O, M = -O, -M
+        elif op in ("canon", "trunc"):
+            nrm = float(np.linalg.norm(M))
+            if st["normalize"] and not nrm > 1e-6:
+                return None, None
+            O = O.shallow_copy()
+            if op == "canon":
+                O.canonize_(to=st["to"], normalize=st["normalize"])
+            else:
+                O.canonize_(to=("last" if st["to"] == "first" else "first"), normalize=st["normalize"])
+                O.truncate_(to=st["to"], opts_svd={"tol": 1e-13}, normalize=st["normalize"])
+            if st["normalize"]:   # documented: the norm is set to 1 (and not kept in .factor)
+                M = M / nrm
+        elif op == "matmul":
+            O2, M2 = mpo_from_terms(ops, alg, cls, k, st["terms"])
+            O, M = (O2 @ O, M2 @ M) if st["side"] == "left" else (O @ O2, M @ M2)
+        elif op == "add":
+            O2, M2 = mpo_from_terms(ops, alg, cls, k, st["terms"])
+            if st["how"] == "add":
+                a, b = st["amps"]
+                O, M = mps.add(O, O2, amplitudes=[cplx(a), cplx(b)]), complex(*a) * M + complex(*b) * M2
+            elif st["how"] == "plus":
+                O, M = O + O2, M + M2
+            else:
+                O, M = O - O2, M - M2
+        else:
+            raise ValueError(op)
+    return O, M
+
+
 def build_gate(ops, alg, cls, sym, g):
     """descriptor -> (real Gate, independent dense matrix M on the chain of the acting sites, acting sites)."""
     import scipy.linalg as sla
@@ -908,14 +998,13 @@ def build_gate(ops, alg, cls, sym, g):
     sites = [tuple(s) for s in g["sites"]]
     if g["g"] == "mpo":
         k = len(sites)
-        words = [(complex(*a), [tuple(w) for w in word]) for a, word in g["terms"]]
-        M = np.eye(alg["d"] ** k, dtype=complex) + chain_op(alg, k, words)
-        I = ops.I()
-        hterms = [mps.Hterm(1, [0], [I])]
-        for a, word in g["terms"]:
-            hterms.append(mps.Hterm(cplx(a), [p for _, p in word], [yop(ops, cls, n) for n, _ in word]))
-        O = mps.generate_mpo(mps.product_mpo(I, k), hterms)
-        # the MPO generator is not under test here (C07): use the gate only if the MPO is the intended operator
+        O, M = mpo_from_terms(ops, alg, cls, k, g["terms"])
+        # the operator is handed over in an arbitrary PRESENTATION of the MPO object (overall scalar kept in .factor,
+        # canonical forms, compressed, sums / products of MPOs); the dense operator it represents is tracked in NumPy
+        O, M = present_mpo(ops, alg, cls, k, O, M, g.get("present", []))
+        if O is None:
+            return None, None, None
+        # the MPO module is not under test here (C07): use the gate only if the MPO is the intended operator
         leg = ops.space()
         L = {}
         for j in range(k):
@@ -923,7 +1012,8 @@ def build_gate(ops, alg, cls, sym, g):
             L[2 * j + 1] = leg.conj()
         T = np.asarray(O.to_tensor().to_numpy(legs=L))
         T = T.transpose(list(range(0, 2 * k, 2)) + list(range(1, 2 * k, 2))).reshape(alg["d"] ** k, alg["d"] ** k)
-        if relerr(T, M) > 1e-10:
+        mscale = float(np.abs(M).max())
+        if T.shape != M.shape or not (1e-6 < mscale < 1e6) or not float(np.abs(T - M).max()) <= 1e-10 * mscale:
             return None, None, None
         if g["form"] == "list":
             from yastn.tn.fpeps._gates_auxiliary import gate_from_mpo
@@ -1095,6 +1185,11 @@ def exec_circuit(ctx, prog, want_state=False):
         for s0, s1 in zip(path, path[1:]):
             ctx.count(f"apply:bond:{geo.nn_bond_dirn(s0, s1)}:{'f-ordered' if geo.f_ordered(s0, s1) else 'f-reversed'}")
         ctx.count(f"apply:gate:{g['g']}:{len(path)}-site")
+        if g["g"] == "mpo":
+            for st in g.get("present", []):
+                ctx.count(f"apply:mpo-present:{st['op']}" + (":normalize" if st.get("normalize") else ""))
+            if g["form"] == "mpo":
+                ctx.count("apply:mpo-object:factor" + ("=1" if abs(float(gate.G.factor) - 1) < 1e-12 else "!=1"))
         try:
             psi.apply_gate_(gate)
             w = peps_dense(psi, ops)
